@@ -113,6 +113,15 @@ def w_pair(case):
         d = run.fresh_dir('c10')
         data = build_image(case['spec'])
         name = 'x.' + case['spec']['ext']
+        if case.get('where'):
+            # the same pair under a path that itself contains '.gz' / another image extension
+            sub, pat = case['where']
+            if sub:
+                os.makedirs(os.path.join(d, sub), exist_ok=True)
+            name = os.path.join(sub, pat % case['spec']['ext'])
+        if case['spec'].get('blank_side2'):
+            half = len(data) // 2
+            data = data[:half] + b'\xE5' * (len(data) - half) if case['spec']['ext'] in ('ssd', 'sdd') else data
         dfsrun.write(d, name, data)
         how = case.get('gz', {'level': 6})
         if 'cuts' in how:
@@ -125,7 +134,7 @@ def w_pair(case):
             z = images.gz(data, how.get('level', 6))
         dfsrun.write(d, name + '.gz', z)
         compare_pair(res, d, name, case.get('cmds', CMDS), case['sig'], case.get('note', ''))
-        res['nt'].append((case['sig'], repr(sorted(case['spec'].items())), repr(sorted(how.items()))))
+        res['nt'].append((case['sig'], repr(sorted(case['spec'].items())), repr(sorted(how.items())), repr(case.get('where'))))
         if res['viol']:
             res['case'] = case
     except Exception:
@@ -260,6 +269,31 @@ def fam_geometry(tier):
                'cmds': [['cat'], ['cat', '1020'], ['show-titles'], ['type', '--binary', ':1020.$.HELLO']]}
 
 
+WHERE = [('discs.gz.d', 'x.%s'), ('a.ssd', 'x.%s'), ('', 'x.gz.v2.%s'), ('', 'x.ddd.%s'), ('d.gz', 'y.gz.%s'), ('', '.gz.%s'), ('./sub.mmb.gz', 'x.%s')]
+
+
+def fam_paths(tier):
+    """the geometry-ambiguous images (catalogue total smaller than the surface, 16/18 sectors, one/two sides) stored under paths that contain '.gz' or another image extension in a directory or inner file-name component: X vs X.gz"""
+    specs = []
+    for ext, tr, spt in (('sdd', 40, 18), ('sdd', 80, 18), ('sdd', 40, 16), ('ddd', 40, 18), ('ssd', 80, 10), ('dsd', 80, 10), ('dsd', 40, 10), ('ssd', 40, 10)):
+        for total in (100, 400, 600, 640, 720, 800):
+            if total <= tr * spt:
+                specs.append({'ext': ext, 'tracks': tr, 'spt': spt, 'total': total})
+    specs.append({'ext': 'ssd', 'tracks': 40, 'spt': 10, 'sides': 2})
+    specs.append({'ext': 'sdd', 'tracks': 40, 'spt': 18, 'sides': 2, 'total': 600})
+    specs.append({'ext': 'ssd', 'tracks': 40, 'spt': 10, 'sides': 2, 'blank_side2': True})
+    specs.append({'ext': 'hfe', 'tracks': 3, 'spt': 10, 'total': 30})
+    specs.append({'ext': 'mfm', 'tracks': 2, 'spt': 18, 'total': 36})
+    specs.append({'ext': 'mmb', 'tracks': 80, 'spt': 10, 'slots': 2})
+    cmds = [['cat'], ['info', '*'], ['type', '--binary', 'HELLO'], ['dump-sector', '0', '1', '2'], ['dump-sector', '2', '0', '1'], ['free'], ['sector-map'], ['--show-config', 'show-titles']]
+    for i, sp in enumerate(specs):
+        for j, where in enumerate(WHERE):
+            if tier == 'quick' and (i + j) % 2 and j > 1:
+                continue
+            yield {'w': 'pair', 'spec': sp, 'where': list(where), 'cmds': cmds, 'sig': 'C10:pair:path-with-inner-extension:%s' % sp['ext'],
+                   'note': '%dx%d total=%s under %s/%s' % (sp['tracks'], sp['spt'], sp.get('total'), where[0], where[1] % sp['ext'])}
+
+
 def fam_levels(tier):
     """compression levels 0..9; image sizes of 2..12 sectors (decompressed size mod 1024 = 0,256,512,768)"""
     for lvl in range(10):
@@ -309,7 +343,7 @@ def fam_damage(tier):
         yield {'w': 'damage', 'damages': dam[i:i + 60]}
 
 
-FAMILIES = [('L-levels-sizes', fam_levels), ('G-container-geometry', fam_geometry), ('M-members', fam_members),
+FAMILIES = [('P-paths-with-inner-extensions', fam_paths), ('L-levels-sizes', fam_levels), ('G-container-geometry', fam_geometry), ('M-members', fam_members),
             ('B-buffer-boundaries', fam_boundary), ('E-member-end-vs-input-buffer', fam_member_boundary),
             ('D-damaged-streams', fam_damage)]
 
